@@ -335,14 +335,14 @@ static int st_apply(uint32_t op, int audit)
         struct walkp w = { l1, 0, -1, 0, 0 };
         int rr, stop = pos == NOSTOP ? -1 : pos;
         if (stop >= Mn[l1]) return 0;
-        w.stop_at = stop; w.stop_val = 7 + stop;
+        w.stop_at = stop; w.stop_val = (stop & 1) ? -(7 + stop) : 7 + stop;    /* any non-zero value stops */
         VRT_OP2("slist.foreach", "l%ld stop@%ld", l1, stop);
         rr = cstl_slist_foreach(&L[l1], visit_cb, &w);
         VRT_CHECK(w.bad == 0, "slist.foreach.order", "foreach visited a wrong element at index %d", w.bad - 1);
         if (stop < 0) {
             VRT_CHECK(rr == 0 && w.n == Mn[l1], "slist.foreach.full", "foreach returned %d after %d of %d", rr, w.n, Mn[l1]);
         } else {
-            VRT_CHECK(rr == 7 + stop, "slist.foreach.stop-value", "foreach returned %d, visitor asked %d", rr, 7 + stop);
+            VRT_CHECK(rr == w.stop_val, "slist.foreach.stop-value", "foreach returned %d, visitor asked %d", rr, w.stop_val);
             VRT_CHECK(w.n == stop + 1, "slist.foreach.continued", "foreach made %d visits, stop requested at %d", w.n, stop);
             VRT_COUNT("op.foreach.early-stop");
         }
